@@ -138,7 +138,14 @@ def classify(prog, path, exp, res, all_ids, leg):
         else:
             key["effect"] = "wrong-binding"
     alt = S.expectation(prog, path, "pinned")
-    key["explained_by"] = "set-evaluated-where-used-as-rec" if matches(alt, res) else "none"
+    S.CROSSINGS[0] = 0
+    S.expectation(prog, path)
+    # attributed to the test-pinned deviation when the emulation of it reproduces the answer, or
+    # when Nix's own resolution of this query evaluates a non-literal value of a set that is used
+    # from outside (the domain of that deviation)
+    key["explained_by"] = ("set-evaluated-where-used-as-rec"
+                           if matches(alt, res) or S.CROSSINGS[0] > 0 else "none")
+    key["crossing"] = "yes" if S.CROSSINGS[0] > 0 else "no"
     return key
 
 
